@@ -4,7 +4,7 @@
    risk_matrix.py and murphy_impl.py on every run; sums, matrix orientation and the scaling algorithm are
    the hand models of coq/model/C12.v (tied by the correspondence check). *)
 From Coq Require Import Sorting.Sorted Sorting.Permutation.
-From V Require Import lib.Tree gen.Gen_C12_kern model.C12 proofs.C12 proofs.C12_murphy proofs.C12_sum proofs.C12_mats proofs.C12_scaling.
+From V Require Import lib.Tree lib.C12_aux gen.Gen_C12_kern model.C12 proofs.C12 proofs.C12_nan proofs.C12_murphy proofs.C12_sum proofs.C12_mats proofs.C12_scaling.
 
 (* firm_single_spec: for every rational forecast, observation, threshold (ties included) and risk parameter, both
    threshold assignments (any string other than "lower" behaves as "upper"; the guard admits only the two) and
@@ -189,6 +189,25 @@ Theorem C12_scaling_depends_on_unused_weight_refuted :
   scaling_to_wm M_wit [1] = [[0]; [0]] /\ scaling_to_wm M_wit [1; 5] = [[1 + 0]; [0]].
 Proof. exact scaling_depends_on_unused_weight. Qed.
 Print Assumptions C12_scaling_depends_on_unused_weight_refuted.
+
+(* the full-function models: every output cell of firm / risk_matrix_score is the NaN-skipping mean, over the
+   reduced dimensions, of weights times the per-case sums characterised above *)
+Theorem C12_firm_cells : forall c fcst obs alpha ths wts d rd pd w assign r e,
+  firm_m c fcst obs alpha ths wts d rd pd w assign = Ok r ->
+  exists R, gather (ldims fcst) (ldims obs) None rd pd DNone = Ok R /\
+    let s := apply_weights w (firm_pointwise c fcst obs alpha ths wts d assign) in
+    lget r e = nanmean (map (lget s) (envs (lsize s) (dinter (ldims s) R) e)).
+Proof. exact firm_m_value. Qed.
+Print Assumptions C12_firm_cells.
+
+Theorem C12_rms_cells : forall fcst obs dw thr sev prob sf so sw assign rd pd w r e,
+  rms_m fcst obs dw thr sev prob sf so sw assign rd pd w = Ok r ->
+  exists R, gather (ddiff (ldims fcst) [sev]) (ddiff (ldims obs) [sev]) (option_map ldims w) rd pd DNone = Ok R /\
+    let s := apply_weights w (rms_pointwise fcst obs dw thr sev prob assign) in
+    lget r e = nanmean (map (lget s) (envs (lsize s) (dinter (ldims s) R) e)) /\
+    lget (rms_pointwise fcst obs dw thr sev prob assign) e = rms_case assign (rms_rows fcst obs dw thr sev prob e).
+Proof. exact rms_m_value. Qed.
+Print Assumptions C12_rms_cells.
 
 (* the regenerated scalar guards: what passes them is inside the domain of the theorems above, and valid arguments pass *)
 Theorem C12_firm_guard_admits_only_valid : forall (a : Q) (d : xv) (s : string),
